@@ -88,6 +88,7 @@ def _rule_job(job):
             kind = 'missed' if want - got else 'spurious'
             part.add('C02/K1/%s/%s' % (rname, kind), 'rule %s: names %s -> reported %s, documented rule requires %s' % (rname, names, sorted(got) or 'nothing', sorted(want) or 'nothing'),
                      {'names': names, 'source': src, 'got': sorted(got), 'want': sorted(want)}, ('rule', (src, sorted(want), rname)))
+        elif len(part.validate) < 2: part.validate.append(('rule', (src, sorted(want), rname)))
         if len(part.samples) < 1: part.samples.append({'rule': rname, 'names': names, 'reported': sorted(got)})
     M.explore(entry, on_path)
     part.queries += M.stats['smt']; part.encoded = set(M.encoded); part.models = set(M.models_used)
